@@ -1,13 +1,11 @@
 CONSTANTS
-  GrowKeys <- MCGrowKeys
-  GrowVals <- MCGrowVals
-  FixedTrees <- MCFixedTrees
+  Trees <- MCFixedTrees
   Plan <- MCPlan
   RootTags <- MCRootTags
   Elems <- MCElems
   Budget = 4
   MaxDepth = 2
-INIT Init
+INIT MCInit
 NEXT Next
 INVARIANT C04_RoundTrip
 INVARIANT C04_XmlInverse
